@@ -2,6 +2,7 @@ import HpxVerif.Model.Hash
 import HpxVerif.Lemmas.NumReal
 
 import HpxVerif.Lemmas.CellReal4
+import HpxVerif.Lemmas.NoBmiReal
 
 set_option autoImplicit false   -- an unknown identifier in a statement is an error, never a new variable
 
@@ -218,5 +219,51 @@ theorem depth0_branch_reached (d b : ℕ) (X Y : ℝ) (hb : b < 12) (hX0 : 0 ≤
 
 
 end PlaneGeometry
+
+
+/-! ## every build: the statements above that carry `cfg.bmi = false`, for every `cfg` (LUT tables or BMI2) -/
+
+section AnyBuild
+open Hpx Hpx.Hash Hpx.LayerBmi Hpx.BmiTransfer Hpx.Proj Hpx.CellReal
+
+theorem hash_with_dxdy_plane_any_build (cfg : Cfg) (d : ℕ) (hd : d ≤ 29) (X Y : ℝ) (h : PlaneDom X Y)
+    (h3 : 3 ≤ hbI d X Y + hbJ d X Y) (h5 : hbI d X Y + hbJ d X Y ≤ 5) :
+    ∃ hash b i j dx dy, hashBack (α := ℝ) cfg d (X, Y) = some (hash, dx, dy) ∧ hash < Layer.nHash d ∧
+      Layer.decodeHash cfg d hash = some ⟨b, i, j⟩ ∧ b < 12 ∧ i < 2 ^ d ∧ j < 2 ^ d ∧
+      0 ≤ dx ∧ dx < 1 ∧ 0 ≤ dy ∧ dy < 1 ∧
+      cooPt d b i j dx dy = (X, Y) ∧
+      (InDiamond (cellCx d b i j) (cellCy d b i j) (1 / 2 ^ d) X Y ∨
+        InDiamond (cellCx d b i j) (cellCy d b i j) (1 / 2 ^ d) (X - 8) Y) ∧
+      sphCoo (α := ℝ) cfg d hash dx dy = some (unprojT X Y) ∧ unproj X Y = some (unprojT X Y) := by
+  have := Hpx.C03.hash_with_dxdy_plane (noBmi cfg) (noBmi_bmi cfg) d hd X Y h h3 h5
+  simpa only [← hashBack_noBmi, ← decodeHash_eq, ← sphCoo_noBmi] using this
+
+theorem f11_wrong_cell_on_nw_seam_vertices_any_build (cfg : Cfg) (d : ℕ) (hd : d ≤ 29) (q : ℕ) (hq : q < 4)
+    (X Y : ℝ) (hX0 : 0 ≤ X) (hX8 : X < 8) (hin : InDiamond (baseX q) (baseY q) 1 X Y)
+    (hNE : X + Y ≠ baseX q + baseY q + 1) (hNW : Y - X = baseY q - baseX q + 1) (hfrac : hbdx d X Y = 0) :
+    ∃ hash : ℕ, ∃ i : ℕ, hashBack (α := ℝ) cfg d (X, Y) = some (hash, 0, 0) ∧
+      hash = ((q + 3) % 4) <<< (d <<< 1) ||| interleave (2 ^ d - 1) 0 ∧ hash < Layer.nHash d ∧
+      Layer.decodeHash cfg d hash = some ⟨(q + 3) % 4, 2 ^ d - 1, 0⟩ ∧ i < 2 ^ d ∧
+      X = 2 * (q : ℝ) + (i : ℝ) / 2 ^ d ∧ Y = 1 + (i : ℝ) / 2 ^ d ∧
+      cellCx d q i (2 ^ d - 1) + (0 - 1) / 2 ^ d = X ∧ cellCy d q i (2 ^ d - 1) + (0 + 1 - 1) / 2 ^ d = Y ∧
+      (0 < i → ∀ m : ℤ, ¬ InDiamond (cellCx d ((q + 3) % 4) (2 ^ d - 1) 0 + 8 * m) (cellCy d ((q + 3) % 4) (2 ^ d - 1) 0)
+        (1 / 2 ^ d) X Y) := by
+  have := Hpx.C03.f11_wrong_cell_on_nw_seam_vertices (noBmi cfg) (noBmi_bmi cfg) d hd q hq X Y hX0 hX8 hin hNE hNW hfrac
+  simpa only [← hashBack_noBmi, ← decodeHash_eq] using this
+
+theorem hash_center_plane_any_build (cfg : Cfg) (d : ℕ) (hd : d ≤ 29) (b i j : ℕ) (hb : b < 12)
+    (hi : i < 2 ^ d) (hj : j < 2 ^ d) :
+    let h := (b <<< (d <<< 1)) ||| interleave i j
+    h < Layer.nHash d ∧ Layer.decodeHash cfg d h = some ⟨b, i, j⟩ ∧
+    (∃ p, centerOfProjectedCell (α := ℝ) cfg d h = some p ∧ hashBack (α := ℝ) cfg d p = some (h, 1 / 2, 1 / 2)) ∧
+    (∀ dx dy : ℝ, 0 ≤ dx → dx < 1 → 0 ≤ dy → dy < 1 →
+      sphCoo (α := ℝ) cfg d h dx dy = unproj (cooPt d b i j dx dy).1 (cooPt d b i j dx dy).2 ∧
+      hashBack (α := ℝ) cfg d (cooPt d b i j dx dy) = some (h, dx, dy)) := by
+  have := Hpx.C03.hash_center_plane (noBmi cfg) (noBmi_bmi cfg) d hd b i j hb hi hj
+  simpa only [← hashBack_noBmi, ← decodeHash_eq, ← sphCoo_noBmi, ← centerOfProjectedCell_noBmi] using this
+
+/-- non-vacuity: the statements apply to a BMI2 configuration (hypotheses satisfiable by a concrete cell) -/
+example := hash_center_plane_any_build { debug := true, bmi := true } 3 (by omega) 5 2 6 (by omega) (by norm_num) (by norm_num)
+end AnyBuild
 
 end Hpx.C03
